@@ -10,7 +10,7 @@ for f in "$@"; do
   res=""
   for u in Value Events Timer Conditions Tracker ActionData Modifiers Refs Merge Loops; do
     if grep -q '"status": "translated"' <(python3 -c "import json;print(json.dumps(json.load(open('lean/BEI/Gen/Code/status.json'))['$u']))"); then
-      if (cd lean && lake build BEI.Gen.Code.$u >/dev/null 2>&1); then (cd lean && lake build BEI.Bridge.$u >/dev/null 2>&1) || res="$res BROKEN:$u"; else res="$res noelab:$u"; fi
+      if (cd lean && lake build BEI.Gen.Code.$u >/dev/null 2>&1); then out=$(cd lean && lake build BEI.Bridge.$u 2>&1) || { if echo "$out" | grep -qE "Unknown constant .BEI\.Rs\.|Unknown identifier .(BEI\.Rs\.)?[A-Z][A-Za-z0-9_]*\.[a-z_A-Z0-9]+|environment does not contain .BEI\.Rs\."; then res="$res iface:$u"; else res="$res BROKEN:$u"; fi; }; else res="$res noelab:$u"; fi
     fi
   done
   echo "$(basename $f): untranslated=[$st] bridges:[${res:- all ok}]"
